@@ -89,6 +89,9 @@ func runC12(c *Ctx) {
 			if l == "offset" && r == "pkgEnd" {
 				return want && f.Op == token.GEQ || !want && f.Op == token.LSS
 			}
+			if l == "pkgEnd" && r == "offset" {
+				return want && f.Op == token.LEQ || !want && f.Op == token.GTR
+			}
 			return false
 		}
 		call, ok := f.X.(*ssa.Call)
@@ -103,8 +106,13 @@ func runC12(c *Ctx) {
 		if len(eof.Blocks) == 1 {
 			for _, in := range eof.Blocks[0].Instrs {
 				if r, ok := in.(*ssa.Return); ok {
-					if b, ok := r.Results[0].(*ssa.BinOp); ok && b.Op == token.GEQ && z.Of(b.X).String() == "offset" && z.Of(b.Y).String() == "pkgEnd" {
-						okE = true
+					// the returned value as a fact: offset >= pkgEnd in any spelling
+					// (pkgEnd <= offset, !(offset < pkgEnd))
+					if f, ok := condFact(r.Results[0], true); ok && f.Y != nil {
+						l, rr := z.Of(f.X).String(), z.Of(f.Y).String()
+						if f.Op == token.GEQ && l == "offset" && rr == "pkgEnd" || f.Op == token.LEQ && l == "pkgEnd" && rr == "offset" {
+							okE = true
+						}
 					}
 				}
 			}
